@@ -41,6 +41,9 @@ def straddling_text(boundary: int, what: str, tail: list[str], eol: str = "\r\n"
         ch = {2: "µ", 3: "€", 4: "\U0001f600"}[n]
         # the character starts at boundary - 1
         lines.append(_filler(i, rest - 1) + ch + " after")
+    # the comment block CONTINUES after the boundary: an extra (empty) line conjured up at the boundary would split it
+    for j in range(3):
+        lines.append(_filler(i + 1 + j, width))
     text = eol.join(lines) + eol
     first_tail = len(lines) + 1
     text += eol.join(tail) + eol
